@@ -85,8 +85,78 @@ class RatEval:
 
 
 def is_zero(expr):
+    # fast path: numerator of the combined fraction expands to the zero polynomial
+    try:
+        num0 = sympy.fraction(sympy.together(expr))[0]
+        if sympy.expand(num0) == 0:
+            return True
+    except Exception:
+        pass
     e = sympy.cancel(sympy.together(sympy.expand(expr)))
     if e == 0:
         return True
     num, den = sympy.fraction(e)
     return sympy.expand(num) == 0
+
+
+class NFSym:
+    """Monomial normal forms -> sympy expressions with ONE naming scheme for atoms: every
+    `atom ** exponent` factor with a constant rational exponent becomes (expr of the atom) ** q,
+    where sum-atoms are expanded recursively into their terms; a factor with a parameter-dependent
+    exponent becomes one opaque positive symbol keyed by 'atom^(exponent)'.  So two normal forms
+    built from the same sub-values share their opaque symbols, and identities that need
+    distribution (which the monomial form does not do) are decided by the rational normal form."""
+
+    def __init__(self, ev):
+        self.ev = ev
+        self.syms = {}
+        self.memo = {}
+
+    def sym(self, key):
+        if key not in self.syms:
+            self.syms[key] = sympy.Symbol('b%d' % len(self.syms), positive=True)
+        return self.syms[key]
+
+    def _ground(self, e):
+        try:
+            if e.numer.is_ground and e.denom.is_ground:
+                return sympy.Rational(int(e.numer.LC), int(e.denom.LC))
+        except Exception:
+            pass
+        return None
+
+    def atom(self, k):
+        if k in self.memo:
+            return self.memo[k]
+        if k in self.ev.sums:
+            v = sympy.Integer(0)
+            for t in self.ev.sums[k].terms:
+                v += self.mono(t)
+        else:
+            v = self.sym(k)
+        self.memo[k] = v
+        return v
+
+    def mono(self, m):
+        v = sympy.Rational(m.coef.numerator, m.coef.denominator)
+        for k, e in m.f.items():
+            q = self._ground(e)
+            if q is not None:
+                v *= self.atom(k) ** q
+            else:
+                v *= self.sym('%s^(%s)' % (k, e))
+        return v
+
+    def conv(self, x):
+        from .nf import Mono, Sum
+        if isinstance(x, Mono):
+            return self.mono(x)
+        if isinstance(x, Sum):
+            v = sympy.Integer(0)
+            for t in x.terms:
+                v += self.mono(t)
+            return v
+        raise TypeError('piecewise / structured normal form')
+
+    def equal(self, a, b):
+        return is_zero(self.conv(a) - self.conv(b))
